@@ -272,11 +272,19 @@ def body_clip_mesh(ctx, mesh, variant, buffer, via, free=None, after_others=Fals
         'faceface': dict(supply=('edge_node', 'face_face'), fill='nan'),
         # tables that do not count from the same base: one-based faces, a zero-based face-edge table without the attribute
         'mixedbase': dict(supply=('edge_node', 'face_edge'), start_index=1, fill='attr', start_index_by_table={'face_edge': 0}),
+        # the edge table stored (Two, edges) with the edges numbered in another order than a derivation would number them
+        'edgesT-rev': dict(supply=('edge_node',), transposed=True,
+                           edge_order=list(range(len(builders.mesh_edges(builders.MESHES[mesh][1])[0])))[::-1]),
         # tables stored in the smallest integer type that holds the node numbers
         'int8': dict(supply=('edge_node',), dtype='int8', fill='none'),
     }[variant]
     ds = builders.ugrid(mesh, **kw)
     nodes, faces = builders.MESHES[mesh]
+    # the edge numbering of the file, when the file stores its edge table (reference for "in original order")
+    file_edges = None
+    if 'edge_node' in kw.get('supply', ()):
+        ref_edges = builders.mesh_edges(faces)[0]
+        file_edges = [ref_edges[i] for i in kw['edge_order']] if kw.get('edge_order') else list(ref_edges)
     convention = UGrid(ds)
     topology = convention.topology
     nf = len(faces)
@@ -304,7 +312,7 @@ def body_clip_mesh(ctx, mesh, variant, buffer, via, free=None, after_others=Fals
             clips = geo.of_dimension(clips, areal)
         for clip in clips:
             mask = convention.make_clip_mask(clip, buffer=buffer)
-            _check_mesh_mask(ctx, mask, via, variant, nodes, faces, expected, topology)
+            _check_mesh_mask(ctx, mask, via, variant, nodes, faces, expected, topology, file_edges)
         return
     else:
         # unsorted input order, as the real STRtree reports hits
@@ -315,10 +323,10 @@ def body_clip_mesh(ctx, mesh, variant, buffer, via, free=None, after_others=Fals
         ctx.check(set(int(f) for f in face_indexes) == expected,
                   'buffer_faces: marked faces are the node-sharing closure, one ring per call')
         mask = mask_from_face_indexes(face_indexes, topology)
-    _check_mesh_mask(ctx, mask, via, variant, nodes, faces, expected, topology)
+    _check_mesh_mask(ctx, mask, via, variant, nodes, faces, expected, topology, file_edges)
 
 
-def _check_mesh_mask(ctx, mask, via, variant, nodes, faces, expected, topology):
+def _check_mesh_mask(ctx, mask, via, variant, nodes, faces, expected, topology, file_edges):
     nf = len(faces)
     # the renumbering tables hold element numbers of meshes of any size (2**24 + 1 is a legal node number): a type
     # that cannot represent every 32-bit index exactly would renumber large meshes wrongly
@@ -355,7 +363,7 @@ def _check_mesh_mask(ctx, mask, via, variant, nodes, faces, expected, topology):
     if variant == 'noedge':
         ctx.check('new_edge_index' not in mask.data_vars, 'no edge table without an edge dimension')
     else:
-        en = topology.edge_node_array
+        en = topology.edge_node_array if file_edges is None else file_edges
         pairs = set()
         for f in expected:
             fn = faces[f]
@@ -443,6 +451,10 @@ def cases(tier):
             for via in ('make_clip_mask', 'functions'):
                 yield Case(f'clipmesh:{mesh}:faceface:buf{buffer}:{via}', body_clip_mesh,
                            dict(mesh=mesh, variant='faceface', buffer=buffer, via=via), max_paths=5000)
+    for mesh in ('tqp', 'qqqtt'):
+        for buffer in (0, 1):
+            yield Case(f'clipmesh:{mesh}:edgesT-rev:buf{buffer}:make_clip_mask', body_clip_mesh,
+                       dict(mesh=mesh, variant='edgesT-rev', buffer=buffer, via='make_clip_mask'), max_paths=5000)
     for mesh in ('tqp', 'fan'):
         for via in ('make_clip_mask', 'functions'):
             yield Case(f'clipmesh:{mesh}:edges:buf1:{via}:after-other-meshes', body_clip_mesh,
